@@ -1,4 +1,5 @@
 import MosnVerif.Lemmas.DownstreamProps
+import MosnVerif.Lemmas.Downstream.Parked
 /-!
 # C03 — every request ends exactly once, with one reply, in bounded time (property theorems only)
 
@@ -6,8 +7,9 @@ All theorems are about `Model/Downstream.lean` (the shared downstream machine re
 control flow from `pkg/proxy/downstream.go`, `upstream.go`, `retrystate.go`, `pkg/types`), for **every** configuration
 `c : Cfg` (one-way/two-way, body/trailers, every route outcome, every retry policy, every threshold), **every** ambient
 load `ar aq`, and **every** schedule `l : List Label` — an arbitrary interleaving of worker steps (one phase each), upstream
-responses, upstream resets with any reason, pool failures, per-try and global timer callbacks, downstream resets,
-connection closes and asynchronous `TerminateStream` calls on the parked worker.  Everything follows from `inv_run` (Lemmas/Downstream.lean) by induction on the schedule.
+responses (complete, or only the head of a streamed response whose body / trailers follow later), the end of a streamed
+body, upstream resets with any reason (also after the response head was forwarded), pool failures, per-try and global
+timer callbacks, downstream resets, connection closes and asynchronous `TerminateStream` calls on the parked worker.  Everything follows from `inv_run` (Lemmas/Downstream.lean) by induction on the schedule.
 -/
 namespace MosnVerif.Props.C03
 open MosnVerif.Model.Downstream MosnVerif.Gen.ProxyPhase MosnVerif.Gen.ProxyReason
@@ -17,7 +19,8 @@ abbrev reach (c : Cfg) (ar aq : Nat) (l : List Label) : S := run c (init ar aq) 
 
 /-- **sender_once**: on every schedule the calls on the downstream sender respect the protocol accepted by the
 declarative automaton `sndStep`: headers at most once and first, at most one end of stream, nothing after it, at
-most one reset, never a reset after the end of stream, nothing after a reset. -/
+most one reset, never a reset after the end of stream, nothing after a reset — and no `ConnectionPool.NewStream` once
+response headers went to the client (a partial response is never followed by a retry). -/
 theorem sender_once (c : Cfg) (ar aq : Nat) (l : List Label) : senderOk (reach c ar aq l).trace = true := by
   have := (inv_run c ar aq l).k1
   simp only [senderOk, K1] at this ⊢
@@ -29,6 +32,48 @@ theorem sender_counts (c : Cfg) (ar aq : Nat) (l : List Label) :
     ((reach c ar aq l).trace.filter isEos).length + ((reach c ar aq l).trace.filter isReset).length ≤ 1 := by
   have := counts_of_ok (reach c ar aq l).trace Snd.init (inv_run c ar aq l).k1
   simpa [Snd.init] using this
+
+/-- **no_attempt_after_headers**: on every schedule, once response headers were written to the client no further
+upstream attempt is made — neither admitted nor refused: whatever happens to a partially forwarded response (upstream
+reset with a retriable reason and retry budget left, timers, client reset), the request is not replayed upstream and
+the client never sees the head of a second response (`sender_counts`). -/
+theorem no_attempt_after_headers (c : Cfg) (ar aq : Nat) (l : List Label) (t1 t2 : List Ev) (st : Nat) (eos : Bool)
+    (h : (reach c ar aq l).trace = t1 ++ Ev.dh st eos :: t2) : t2.any isNewStream = false := by
+  have := (inv_run c ar aq l).k1
+  simp only [K1] at this
+  rw [h] at this
+  exact no_attempt_after_headers_of_ok t1 t2 st eos this
+
+/-- **partial_reset_completes**: from every reachable state in which an upstream reset is pending after the response
+started (the head of a streamed response was forwarded, the rest was still in flight), at most two worker steps end the
+exchange: the regenerated gate of `onUpstreamReset` refuses the retry whatever the reason and the retry budget, the
+client stream is reset (`dr`), the stream is cleaned and logged — and nothing else is appended to the trace: no new
+upstream attempt, no second response. -/
+theorem partial_reset_completes (c : Cfg) (ar aq : Nat) (l : List Label)
+    (hrun : (reach c ar aq l).running = true) (hur : (reach c ar aq l).upReset = true)
+    (hrst : (reach c ar aq l).respStarted = true) :
+    (reach c ar aq (l ++ [.work, .work])).cleaned = true ∧ (reach c ar aq (l ++ [.work, .work])).running = false ∧
+    (reach c ar aq (l ++ [.work, .work])).trace =
+      (reach c ar aq l).trace ++ [Ev.dr, Ev.log TimeoutExceptionCode (reach c ar aq l).flags] := by
+  have := started_reset_run c ar aq _ (inv_run c ar aq l) hrun hur hrst
+  simpa [reach, run, List.foldl_append, step] using this
+
+/-- … and the reset of the open upstream stream of a streamed response, delivered while the worker waits for the body,
+leads to exactly that state (when the proxy's upstream request still listens to the stream — it stops listening only
+when it resets the stream itself) -/
+theorem partial_reset_pending (c : Cfg) (ar aq : Nat) (l : List Label) (k : Nat) (r : Reason) (st : Stream)
+    (hw : bodyWait (reach c ar aq l) = true) (hk : (reach c ar aq l).streams[k]? = some st)
+    (hst : st.real = true ∧ st.live = true ∧ st.counted = true ∧ st.listening = true) :
+    (reach c ar aq (l ++ [.upReset k r])).upReset = true ∧ (reach c ar aq (l ++ [.upReset k r])).respStarted = true ∧
+    (reach c ar aq (l ++ [.upReset k r])).running = true ∧
+    (reach c ar aq (l ++ [.upReset k r])).trace = (reach c ar aq l).trace := by
+  obtain ⟨hcl, how, hrst, hurr, hpos, hur, hdr⟩ := bodyWait_facts c ar aq _ (inv_run c ar aq l) hw
+  have hsr := ((inv_run c ar aq l).k7 hcl).1
+  have hrun : (reach c ar aq l).running = true := by
+    simp only [bodyWait, Bool.and_eq_true] at hw; exact hw.1.1.1
+  simp only [reach, run, List.foldl_append, List.foldl_cons, List.foldl_nil, step]
+  simp only [reach, run] at hk hw hrst hurr hur hsr hrun
+  simp [upResetL, hk, hst.1, hst.2.1, hst.2.2.1, hst.2.2.2, hurr, hw, upOnResetStream, hsr, hur, hrst, hrun]
 
 /-- **clean_once**: the body of `cleanStream` (witnessed by the access-log event inside it) has run exactly once when
 the stream is cleaned and not at all before; it never runs twice. -/
@@ -48,16 +93,28 @@ theorem worker_returns_iff_cleaned (c : Cfg) (ar aq : Nat) (l : List Label) :
     (reach c ar aq l).running = !(reach c ar aq l).cleaned :=
   (inv_run c ar aq l).k0
 
-/-- **outcome_total**: in every reachable state in which the worker is quiescent (returned, or parked in
-`waitNotify`) either the exchange is finished with exactly one classified outcome — a complete response, a reset after
-the response had started, the client went away, one-way done; never `silent` — or the worker is parked with the global
-timer armed and nothing pending (so `timeout_completes` applies). -/
+/-- **outcome_total**: in every reachable state in which the worker is quiescent (returned, parked in `waitNotify`, or
+waiting for the rest of a streamed response) either the exchange is finished with exactly one classified outcome — a
+complete response, a reset after the response had started, the client went away, one-way done; never `silent` — or
+the worker is parked with the global timer armed and nothing pending (so `timeout_completes` applies), or the head of a
+streamed response was forwarded and its upstream stream is still open (so its end or its reset is enabled:
+`partial_reset_pending` / `partial_reset_completes`). -/
 theorem outcome_total (c : Cfg) (ar aq : Nat) (l : List Label)
-    (hq : (reach c ar aq l).running = false ∨ blocked (reach c ar aq l) = true) :
+    (hq : (reach c ar aq l).running = false ∨ blocked (reach c ar aq l) = true ∨ bodyWait (reach c ar aq l) = true) :
     ((reach c ar aq l).cleaned = true ∧ outcome c (reach c ar aq l) ≠ .silent) ∨
     ((reach c ar aq l).cleaned = false ∧ blocked (reach c ar aq l) = true ∧ c.oneway = false ∧
-      (reach c ar aq l).global = true) := by
+      (reach c ar aq l).global = true) ∨
+    ((reach c ar aq l).cleaned = false ∧ bodyWait (reach c ar aq l) = true ∧ c.oneway = false ∧
+      (reach c ar aq l).respStarted = true ∧ 0 < liveCount (reach c ar aq l).streams) := by
   have h := inv_run c ar aq l
+  by_cases hbw : bodyWait (reach c ar aq l) = true
+  · obtain ⟨hcl, how, hrst, _, hpos, _, _⟩ := bodyWait_facts c ar aq _ h hbw
+    exact Or.inr (Or.inr ⟨hcl, hbw, how, hrst, hpos⟩)
+  have hq : (reach c ar aq l).running = false ∨ blocked (reach c ar aq l) = true := by
+    rcases hq with hq | hq | hq
+    · exact Or.inl hq
+    · exact Or.inr hq
+    · exact absurd hq hbw
   by_cases hcl : (reach c ar aq l).cleaned = true
   · left
     refine ⟨hcl, ?_⟩
@@ -78,7 +135,7 @@ theorem outcome_total (c : Cfg) (ar aq : Nat) (l : List Label)
             · exact absurd hh h1
             · exact absurd hh h5
             · exact absurd hh h4
-  · right
+  · right; left
     simp only [Bool.not_eq_true] at hcl
     have hb : blocked (reach c ar aq l) = true := by
       rcases hq with hq | hq
@@ -86,6 +143,16 @@ theorem outcome_total (c : Cfg) (ar aq : Nat) (l : List Label)
       · exact hq
     have := blocked_facts c ar aq _ h hb
     exact ⟨hcl, hb, this.2.1, this.2.2.1⟩
+
+/-- **parked_has_live_upstream**: in every reachable state in which the worker is parked in `waitNotify` with nothing
+signalled, the request's current upstream attempt is live — its client stream is registered and counted: the request
+holds exactly what it waits for (upActive ≥ 1), so an upstream event (or, failing that, the armed global timer:
+`timeout_completes`) will wake it.  This is the Spec clause "an unfinished started exchange has upActive ≥ 1".
+It rests on a second invariant (`inv2_run`): every live client stream is still listened to by the proxy's upstream
+request, and a quiet forwarding phase has a live current attempt. -/
+theorem parked_has_live_upstream (c : Cfg) (ar aq : Nat) (l : List Label) (hb : blocked (reach c ar aq l) = true) :
+    0 < liveCount (reach c ar aq l).streams ∧ 1 ≤ (reach c ar aq l).upActive :=
+  parked_live c ar aq _ (inv_run c ar aq l) (inv2_run c ar aq l) hb
 
 /-- **timeout_completes**: from every reachable state in which the worker is parked (request sent, no event pending)
 the firing of the global timer is enabled, and it is sufficient: three worker steps later the stream is cleaned, the
@@ -136,7 +203,7 @@ theorem reset_reply (c : Cfg) (s : S) (r : Reason) (h : s.respStarted = false) :
     (onUpstreamResetFinish c s r).respCode = reasonToCode r ∧ (onUpstreamResetFinish c s r).statusVar = some (reasonToCode r) ∧
     (onUpstreamResetFinish c s r).flags = s.flags ||| reasonToFlag r ∧ (onUpstreamResetFinish c s r).direct = true := by
   unfold onUpstreamResetFinish
-  simp [h, sendHijack, orFlag]
+  simp [resetNotReply_eq, h, sendHijack, orFlag]
 
 /-- route outcomes without an upstream: no route ⇒ 404 + NoRouteFound, no healthy host ⇒ 502 + NoHealthyUpstream -/
 theorem route_reply (c : Cfg) (s : S) :
@@ -162,6 +229,31 @@ example : (reach { retryOn := true, numRetries := 1, maxRetries := 1 } 0 0
     (List.replicate 12 .work ++ [.upReset 0 .StreamConnectionFailed] ++ List.replicate 5 .work ++ [.terminate 418] ++
       List.replicate 3 .work)).trace =
     [.un 0, .uh 0 true, .un 1, .uh 1 true, .ur 1, .dh 418 true, .log 418 DownStreamTerminate] := by decide
+/-- a partial response: the head of a streamed 200 (body in flight) is forwarded and the worker waits for the body … -/
+example : bodyWait (reach { retryOn := true, numRetries := 2 } 0 0
+    (List.replicate 12 .work ++ [.upRespS 0 200 true false] ++ List.replicate 3 .work)) = true ∧
+    (reach { retryOn := true, numRetries := 2 } 0 0
+      (List.replicate 12 .work ++ [.upRespS 0 200 true false] ++ List.replicate 3 .work)).trace =
+    [.un 0, .uh 0 true, .dh 200 false] := by decide
+/-- … the upstream connection is terminated (a retriable reason, retry budget left): no retry, the client is reset … -/
+example : (reach { retryOn := true, numRetries := 2 } 0 0
+    (List.replicate 12 .work ++ [.upRespS 0 200 true false] ++ List.replicate 3 .work ++
+      [.upReset 0 .StreamConnectionTermination, .work, .work])).trace =
+    [.un 0, .uh 0 true, .dh 200 false, .dr, .log 504 0] := by decide
+/-- … or the body ends and the response is completed -/
+example : (reach { retryOn := true, numRetries := 2 } 0 0
+    (List.replicate 12 .work ++ [.upRespS 0 200 true true] ++ List.replicate 3 .work ++ [.upEnd 0, .work, .work])).trace =
+    [.un 0, .uh 0 true, .dh 200 false, .dd false, .dt, .log 200 0] := by decide
+/-- the hypotheses of `partial_reset_completes` are met on that schedule -/
+example : ((fun (s : S) => (s.running, s.upReset, s.respStarted))
+    (reach { retryOn := true, numRetries := 2 } 0 0
+      (List.replicate 12 .work ++ [.upRespS 0 200 true false] ++ List.replicate 3 .work ++
+        [.upReset 0 .StreamConnectionTermination]))) = (true, true, true) := by decide
+/-- a streamed 503 on a retrying route is swallowed before anything reaches the client: the open stream is reset by the
+proxy and the request retried (nothing was forwarded, so this retry is legitimate) -/
+example : (reach { retryOn := true, numRetries := 1, maxRetries := 1 } 0 0
+    (List.replicate 12 .work ++ [.upRespS 0 503 true false] ++ List.replicate 5 .work)).trace =
+    [.un 0, .uh 0 true, .ur 0, .un 1, .uh 1 true] := by decide
 /-- client gone while waiting: classified, not silent -/
 example : outcome {} (reach {} 0 0 (List.replicate 12 .work ++ [.downReset .StreamConnectionTermination, .work])) = .clientGone := by
   decide
